@@ -94,8 +94,12 @@ package storage
 //@   ensures [non-nil] result != nil
 
 // partition borders are stored keys or well-formed internal keys (at least magic + '$' + revision)
+// gp_parts: what the engine last reported as partitions
+//@ ghost gp_parts Slice
 //@ func KvStorage.GetPartitions(ctx, start, end) (partitions, err)
 //@   assumed
+//@   modifies ghost.gp_parts
+//@   ensures [recorded] gp_parts == partitions
 //@   ensures [fresh] fresh(partitions) || is_nil(partitions)
 //@   ensures [decodable-borders] forall(k, 0 <= k && k < len(partitions), len(partitions[k].End) >= 13)
 
